@@ -60,7 +60,8 @@ def make_classes():
         def __init__(self, mode="decision", learn=True, kind="col"):
             self.mode = mode
             self.learn = learn
-            self.kind = kind      # col: a feature column; neg: its negation; const: constant; col32 / colint: the column as float32 / int64
+            self.kind = kind      # col: a feature column; neg: its negation; const: constant; col32 / colint: the column as float32 / int64;
+            # pp-<values>-<shape>: as col, with a predict_proba that returns other values; dec-only: as col, no predict_proba
 
         def fit(self, X, y):
             ids = [int(v) for v in X[:, 0]]
@@ -86,8 +87,39 @@ def make_classes():
                 return self._score
             raise AttributeError(name)
 
+        def __getattribute__(self, name):
+            # kind "dec-only": an estimator WITHOUT predict_proba (additive, C11 round 5; every other kind is untouched)
+            if name == "predict_proba" and object.__getattribute__(self, "__dict__").get("kind") == "dec-only":
+                raise AttributeError(name)
+            return object.__getattribute__(self, name)
+
         def predict_proba(self, X):
             s = self._score(X)
+            kind = self.kind if isinstance(self.kind, str) else ""
+            if kind.startswith("pp-"):
+                # additive kinds "pp-<values>-<shape>" (C11 round 5): the decision function is the feature column as for
+                # "col", but predict_proba returns DIFFERENT values, so that it is visible which of the two methods the
+                # code under test took for the raw scores.  values: sq = column squared (same ranking, not affine),
+                # other = the next feature column (another ranking), neg = the negated column, sig = a logistic image
+                # (what scikit-learn classifiers do), same = the column itself; shape: 2col (class 0, class 1), 1col, 1d
+                _, what, shape = kind.split("-")
+                if what == "sq":
+                    p = s * s
+                elif what == "other":
+                    p = np.asarray(X[:, 1 + (self.col_ % (X.shape[1] - 1))], dtype=float)
+                    if X.shape[1] <= 2:
+                        p = 100.0 - s
+                elif what == "neg":
+                    p = -s
+                elif what == "sig":
+                    p = 1.0 / (1.0 + np.exp(-(s - 50.0) / 8.0))
+                else:
+                    p = s
+                if shape == "1d":
+                    return np.array(p)
+                if shape == "1col":
+                    return np.array(p).reshape(-1, 1)
+                return np.vstack([(1.0 - p) if what == "sig" else -p, p]).T
             return np.vstack([-s, s]).T
 
     class Memoriser(BaseEstimator, ClassifierMixin):
